@@ -467,11 +467,17 @@ func (e *engine) mergeDelta() error {
 			queryArgs[i] = fact.Args[i]
 		}
 		queryExisting := ast.Atom{pred, queryArgs}
-		existing := false
+		// The existing facts are collected first: the store must not be modified (nor, for a
+		// locking store, re-entered for writing) from inside its own GetFacts callback.
+		var existingFacts []ast.Atom
 		e.store.GetFacts(queryExisting, func(existingFact ast.Atom) error {
-			existing = true
+			existingFacts = append(existingFacts, existingFact)
+			return nil
+		})
+		existing := len(existingFacts) > 0
+		for _, existingFact := range existingFacts {
 			if fact.Equals(existingFact) {
-				return nil // nothing to do.
+				continue // nothing to do.
 			}
 
 			// Evaluate merge predicate (top-down) to construct replacement fact.
@@ -498,16 +504,15 @@ func (e *engine) mergeDelta() error {
 				return nil
 			})
 			if err == errBreak {
-				return nil // Already added.
+				continue // Already added.
 			}
-			if err != nil && err != errBreak {
-				return err
+			if err != nil {
+				break
 			}
 			if !merged {
 				e.store.Add(fact) // fact and existingFact are incomparable.
 			}
-			return nil
-		})
+		}
 		if !existing {
 			e.store.Add(fact)
 		}
